@@ -66,7 +66,15 @@ def build(desc, s):
                 # a decoy with the right stem in the default directory must NOT be chosen
                 r.command_file(t, c, "x")
             else:
+                if desc.get("decoys"):
+                    # entries with the command's stem that are not files: a directory (build.d/), created before the
+                    # command file, and - below - a dangling symbolic link (build.bak), created after it
+                    os.makedirs(r.path(os.path.join(t, "monorail/cmd", c + ".d")), exist_ok=True)
+                    r.write(os.path.join(t, "monorail/cmd", c + ".d", "10-local.conf"), "x\n")
                 p = r.command_file(t, c, "x")
+                if desc.get("decoys"):
+                    os.symlink("gone-" + c + ".sh", r.path(os.path.join(t, "monorail/cmd", c + ".bak")))
+                    os.makedirs(r.path(os.path.join(t, "monorail/cmd", c)), exist_ok=True)   # and a directory named exactly like the command
             expect_exe[(t, c)] = p
     expect_args = {}
     shared = desc["argdir"] == "shared"
@@ -74,6 +82,10 @@ def build(desc, s):
         adir = ("conf/%s-argmaps" % t) if desc["argdir"] == "custom" else "conf/shared-argmaps" if shared else os.path.join(t, "monorail/argmap")
         if shared:
             t = "shared"   # the files are the same for every target, and so are the expected arguments
+        if desc.get("argdir_is_file") and ti == 1:
+            # where this target's argmap directory would be there is a regular file: its argmap files do not
+            # exist (for a reason other than "no such file"), so they contribute nothing
+            r.write(adir, "not a directory\n")
         for m in ("base", "m1", "m2"):
             kind = desc["files"][0 if shared else ti][m]
             if desc.get("dotted") and m != "base":
@@ -258,6 +270,19 @@ def scenarios(tier):
             if sel:
                 d_["select"] = sel
             out.append(d_)
+    # (2n) the command directory also holds same-stem entries that are not files
+    for cmds in (["build"], ["build", "test"]):
+        for n in (1, 3):
+            files = [{"base": "args", "m1": None, "m2": None}] * n
+            out.append({"targets": n, "commands": cmds, "files": files, "argmaps_opt": None, "no_base": False,
+                        "args": None, "argdir": "default", "cmdsrc": "default", "vocab": plain, "decoys": True})
+    # (2m) argmap files that do not exist for other reasons than a missing file: the argmap directory of one target
+    # is a regular file; a requested name too long for any file system
+    for o in (None, ["m1"], ["m1", "n" * 300], ["n" * 251, "m1"]):
+        for adf in (True, False):
+            files = [{"base": "args", "m1": "args", "m2": None}, {"base": None, "m1": None, "m2": None}]
+            out.append({"targets": 2, "commands": ["build"], "files": files, "argmaps_opt": o, "no_base": False,
+                        "args": None, "argdir": "default", "cmdsrc": "default", "vocab": plain, "argdir_is_file": adf})
     # (2l) targets whose configuration has an argmaps.definitions table
     for ad in ("empty", "unrelated", "some"):
         for o in (None, ["m1"], ["m2", "m1"]):
